@@ -270,6 +270,16 @@ func init() {
 			// the issues a caller holds are exactly the violations, also after later and overlapping executions
 			// "a value that satisfies its node yields no issue" / "each failed test yields one issue" for the built-in URL
 			// test on URLs assembled from parts (the reference predicate is C20's)
+			// every pointer NotNil by default: a NotNil pointer next to two other deviating nodes within k=2
+			for _, it := range coreItemsFiltered(tier, c02Scenario, func(a *Alpha) { a.Lite = true; a.PtrReq = true }, []int{0, 1}, 2, func(ns NamedSkel) bool { return hasPtr(ns.S) }) {
+				it.Name = "notnil-pointers/" + it.Name
+				items = append(items, it)
+			}
+			// every struct-level test failing by default
+			for _, it := range coreItemsFiltered(tier, c02Scenario, func(a *Alpha) { a.Lite = true; a.StructFails = true }, []int{0, 1}, 2, func(ns NamedSkel) bool { return hasStruct(ns.S) }) {
+				it.Name = "failing-record-tests/" + it.Name
+				items = append(items, it)
+			}
 			items = append(items, Item{Name: "builtin/URLParts", MaxDevs: -1, Run: reKey("C02", "C20", c20URLParts)})
 			items = append(items, preprocItem("C02", "clean-despite-violation", "issues", "panic"))
 			return append(items, callsItems(tier, "C02", "clean-despite-violation", "depends-on-history", "nested-call-differs", "earlier-result-changed", "panic")...)
